@@ -22,6 +22,7 @@ use serde_json::Value;
 use std::collections::{BTreeMap, BTreeSet};
 
 pub static SCHEMA_JSON: &str = include_str!(concat!(env!("OUT_DIR"), "/schema.json"));
+pub static PINNED_SCHEMA_JSON: &str = include_str!("../pinned_schema.json");
 
 /// Types whose internal relations the schema DSL cannot express (DESIGN C04).  X2 values that
 /// contain one of these are judged by the stability oracle only; the strong oracle still applies to
@@ -78,6 +79,7 @@ pub struct SField {
     pub since_version: Option<(u16, u16)>,
     pub if_flag: Option<(String, String)>,
     pub read_with: Vec<String>,
+    pub nullable: bool,
 }
 
 #[derive(Debug, Clone)]
@@ -123,7 +125,41 @@ fn args_of(s: &str) -> Vec<String> {
 
 impl Schema {
     pub fn load() -> Schema {
-        let v: Value = serde_json::from_str(SCHEMA_JSON).expect("schema.json");
+        Self::from_json(SCHEMA_JSON)
+    }
+    /// the schema as transcribed from the pinned, reviewed tree (`pinned_schema.json` = build.rs output
+    /// on the unchanged repository): the distinct-counts family takes its count relations from here,
+    /// so that a count relation altered in the codegen inputs *and* the generated code alike is still
+    /// contradicted by execution.  Regenerate by copying OUT_DIR/schema.json when the schema is
+    /// changed on purpose.
+    pub fn pinned() -> Schema {
+        Self::from_json(PINNED_SCHEMA_JSON)
+    }
+    /// count relations (`Struct.field: count / read_with / compile`) that differ between two schemas
+    pub fn count_relation_differences(&self, other: &Schema) -> Vec<String> {
+        let mut out = vec![];
+        let rel = |f: &SField| format!("count={:?} read_with={:?} compile={:?}", f.count, f.read_with, f.compile);
+        for (name, cands) in &self.structs {
+            for (i, s) in cands.iter().enumerate() {
+                let o = other.structs.get(name).and_then(|c| c.iter().find(|x| x.file == s.file).or(c.get(i)));
+                match o {
+                    None => out.push(format!("{}::{name}: struct only in one schema", s.file)),
+                    Some(o) => {
+                        for f in &s.fields {
+                            match o.fields.iter().find(|x| x.name == f.name) {
+                                None => out.push(format!("{}::{name}.{}: field only in one schema", s.file, f.name)),
+                                Some(x) if rel(x) != rel(f) => out.push(format!("{}::{name}.{}: pinned [{}] live [{}]", s.file, f.name, rel(f), rel(x))),
+                                _ => {}
+                            }
+                        }
+                    }
+                }
+            }
+        }
+        out
+    }
+    fn from_json(text: &str) -> Schema {
+        let v: Value = serde_json::from_str(text).expect("schema.json");
         let mut structs: BTreeMap<String, Vec<SStruct>> = BTreeMap::new();
         let mut literal_counts = BTreeMap::new();
         let mut remainder_fields = BTreeSet::new();
@@ -196,6 +232,7 @@ impl Schema {
                     since_version,
                     if_flag,
                     read_with,
+                    nullable: at.get("nullable").is_some(),
                 });
             }
             structs.entry(name.clone()).or_default().push(SStruct {
@@ -548,7 +585,7 @@ impl Schema {
     }
 
     /// value of raw schema field `x` of struct `s` in the value `o`
-    fn operand(
+    pub(crate) fn operand(
         &self,
         s: &SStruct,
         o: &serde_json::Map<String, Value>,
@@ -600,7 +637,7 @@ impl Schema {
         None
     }
 
-    fn count_expr(
+    pub(crate) fn count_expr(
         &self,
         s: &SStruct,
         o: &serde_json::Map<String, Value>,
